@@ -183,6 +183,8 @@ def rule(fn, kind, expr, ordn, guards, contract):
         return thm('C07', 'hookChain_never_panics', need(*conds))
     if fn in ('metadata.GetMetadataPropertyWithMatchedKey',) or (fn == 'metadata.resolveAliases' and kind == 'make'):
         return '.sizeFromLen "len of a map"'
+    if fn == 'metadata.exponentTooLarge':
+        return thm('C07', 'exponentTooLarge_never_panics', need('!(i < 0 || i == len(str)-1)'))
     if fn == 'metadata.DecodeMetadata':
         if expr == 'f.Interface()':
             return thm('C07Sites', 'Kit.C07.decodeMetadata_reflect_sites', need('err == nil && f.Kind() == reflect.Map && f.CanInterface()'))
